@@ -27,7 +27,7 @@ os.chdir(HERE)
 from sim import env  # noqa: E402
 
 BUDGET = {   # runs per tier
-    'quick': {'default': 1600, 'C04': 640, 'C07': 1600, 'C08': 1600, 'C16': 3200, 'C18': 480},
+    'quick': {'default': 1600, 'C04': 640, 'C07': 1600, 'C08': 1600, 'C16': 3200, 'C18': 800},
     'thorough': {'default': 40000, 'C04': 9600, 'C08': 32000, 'C16': 64000, 'C18': 6400},
 }
 
